@@ -394,3 +394,53 @@ def cloner_closed(fb, rep):
             else:
                 rep.violation(R, "cloner-arm-shares|%s|%s" % (adt, vn),
                               "%s: the arm for pointer-carrying %s::%s neither allocates a copy nor fails" % (fid, adt, vn), b.where())
+
+
+def userdata_clones(fb, rep):
+    """E4d: a userdata that overrides deep_clone rebuilds itself in the destination heap"""
+    R = "E4d"
+    rep.rule(R, "Userdata::deep_clone overrides copy their values with the cloner, allocate in its heap and re-own the cell")
+    n = 0
+    for b in fb.bodies.values():
+        if b.get("impl_trait") != "gluon_vm::value::Userdata" or b.get("name") != "deep_clone":
+            continue
+        n += 1
+        self_adt = b.strip_refs(b.ty(b.get("impl_self"))).get("adt")
+        allocs = [c for c in b.calls() if c.res.endswith("Gc::alloc")]
+        good_alloc = any(flow.has_call(flow.sources(b, c.args[0]), lambda x: x.endswith("Cloner::<'t>::gc")) for c in allocs)
+        aggs = [(i, rv, ln) for i, j, pl, rv, ln in b.assigns() if rv[0] == "agg" and rv[1][0] == "adt" and rv[1][1] == self_adt]
+        a = fb.adts.get(self_adt)
+        ok_fields = True
+        detail = []
+        if a is None:
+            ok_fields = False
+        elif not aggs:
+            # `Box::new(self.clone())` (derive(Userdata) with clone): only sound for data without GC pointers
+            srow = b.strip_refs(b.ty(b.get("impl_self")))
+            mk = b.crate.markers
+            gcm = [mk.index(x) for x in ("gluon_vm::gc::GcPtr", "gluon_vm::value::Value", "gluon_vm::value::ValueRepr") if x in mk]
+            if any(i in srow.get("ma", []) for i in gcm):
+                ok_fields = False
+                detail.append("clones itself with Clone although it holds GC pointers")
+        for i, rv, ln in aggs:
+            names = [f["name"] for f in a["variants"][0]["fields"]]
+            types = a["_crate"].types
+            for fi, o in enumerate(rv[2]):
+                fname = names[fi] if fi < len(names) else str(fi)
+                frow = types[a["variants"][0]["fields"][fi]["ty"]]
+                srcs = flow.sources(b, o)
+                holds_value = a["_crate"].markers.index("gluon_vm::value::Value") in frow.get("ma", []) if "gluon_vm::value::Value" in a["_crate"].markers else False
+                is_thread = "GcPtr<gluon_vm::thread::Thread>" in frow["s"]
+                if is_thread:
+                    if not flow.has_call(srcs, lambda x: x.endswith("Cloner::<'t>::thread")):
+                        ok_fields = False
+                        detail.append("%s is not the cloner's thread" % fname)
+                elif holds_value:
+                    if not flow.has_call(srcs, lambda x: x.endswith("Cloner::<'t>::deep_clone")):
+                        ok_fields = False
+                        detail.append("%s is not cloned with the cloner" % fname)
+        if good_alloc and ok_fields:
+            rep.ok(R, "%s: values via Cloner::deep_clone, owner = Cloner::thread, allocated in Cloner::gc" % b.id)
+        else:
+            rep.violation(R, "userdata-clone|%s" % self_adt, "%s does not rebuild the userdata in the destination heap (alloc_in_cloner_gc=%s %s)" % (b.id, good_alloc, "; ".join(detail)), b.where())
+    rep.floor(R, "Userdata::deep_clone overrides", n, 2)
